@@ -641,7 +641,7 @@ func TestC08(t *testing.T) {
 		}
 	}()
 	wg.Wait()
-	code := run.Finish("API level: datagrams of up to exhaustive_max_blocks 8-byte blocks (+ragged tail): every composition into aligned fragments x every arrival order, alone and with every possible extra fragment (duplicate or content-agreeing overlap, any aligned range) inserted at every position; random: 1-8 interleaved datagrams up to 65515 bytes, up to 200 fragments, overlaps and multiplicities up to 3, 1-4 chunks per fragment; delivery is demanded exactly when the reference byte map is complete incl. the last fragment, content compared byte for byte (key- and offset-coded payload); concurrent (-race): fragments of 1-4 datagrams spread over 2-8 goroutines, each exactly once => exactly one intact delivery each; virtual time (go1.26.8 synctest): reassembly timeout at API level and end to end through the IPv4 endpoint. distinct = compositions / shape classes",
+	code := run.Finish("API level: datagrams of up to exhaustive_max_blocks 8-byte blocks (+ragged tail): every composition into aligned fragments x every arrival order, alone and with every possible extra fragment (duplicate or content-agreeing overlap, any aligned range) inserted at every position; random: 1-8 interleaved datagrams up to 65515 bytes, up to 200 fragments, overlaps and multiplicities up to 3, 1-4 chunks per fragment; delivery is demanded exactly when the reference byte map is complete incl. the last fragment, content compared byte for byte (key- and offset-coded payload); concurrent (-race): fragments of 1-4 datagrams spread over 2-8 goroutines, each exactly once => exactly one intact delivery each; virtual time (go1.26.8 synctest): reassembly timeout at API level and end to end through the IPv4 endpoint. distinct = compositions / shape classes Later additions: End-to-end rounds with 1-60 bytes of link padding behind every fragment. Endurance: one reassembler with the IPv4 limits reassembles several times its memory threshold, every datagram must be handed up.",
 		[]string{"reference: per-key coverage map + last-fragment flag (h/c08)", "only content-agreeing overlaps and fragments within the datagram are judged; total buffered bytes stay far below the 3 MiB eviction threshold", "after a delivery the set is forgotten: later duplicates start a new set (both in the reference and in the implementation)"})
 	os.Exit(code)
 }
